@@ -332,7 +332,10 @@ def _run_fgg_one(ctx, k, double):
         try:
             z1 = fggs.sum_product(fgg, method='fixed-point').to_dense()
             z2 = fggs.sum_product(f2, method='fixed-point').to_dense()
-            if z1.shape != z2.shape or not bool(((z1 == z2) | (z1 != z1) | (z2 != z2)).all()):   # NaN (0 * inf) is outside the claim
+            # (within 1e-12: the weights of the double-precision runs — 0.1, 0.3 — are not dyadic, so the last bit of a sum depends on
+            # the order in which the re-read grammar enumerates rules and edges; false alarm of sweep 11, seed 81)
+            if z1.shape != z2.shape or not bool(((z1 == z2) | (z1 != z1) | (z2 != z2) |
+                                                 ((z1 - z2).abs() <= 1e-12 * torch.maximum(z1.abs(), z2.abs()))).all()):   # NaN (0 * inf) is outside the claim
                 bad.append(f'sum_product differs: {z1.tolist()} vs {z2.tolist()}')
         except Exception as e:  # noqa
             bad.append('sum_product raised ' + repr(e))
